@@ -1,5 +1,6 @@
 """C03 -- phase sets = read-connected components, named by leftmost variant (structural clauses)."""
 import ast
+import re
 
 from sa.model import walk_function, AnalysisError
 from sa.norm import u, atoms, guard_atoms, linear, canon_bool
@@ -74,8 +75,11 @@ def r1(ctx):
         if isinstance(w, ast.While):
             at = atoms(w.test, True)
             for b_ in w.body:
-                if isinstance(b_, ast.Assign) and len(b_.targets) == 1 and isinstance(b_.targets[0], ast.Name) and u(b_.value) == "%s.parent" % b_.targets[0].id and at == {("None is %s.parent" % b_.targets[0].id, False)} and len(w.body) == 1:
-                    walks.append((w, b_.targets[0].id))
+                if isinstance(b_, ast.Assign) and len(b_.targets) == 1 and isinstance(b_.targets[0], ast.Name) and u(b_.value) == "%s.parent" % b_.targets[0].id and at == {("None is %s.parent" % b_.targets[0].id, False)}:
+                    # besides the step, the body may only record the visited node (`path.append(R)`)
+                    others = [x for x in w.body if x is not b_]
+                    if all(isinstance(x, ast.Expr) and isinstance(x.value, ast.Call) and isinstance(x.value.func, ast.Attribute) and x.value.func.attr == "append" and [u(a_) for a_ in x.value.args] == [b_.targets[0].id] for x in others):
+                        walks.append((w, b_.targets[0].id))
     root_names = set()
     if len(walks) == 1:
         w, R = walks[0]
@@ -119,6 +123,61 @@ def r1(ctx):
     ctx.ob(fd.qual, "find-returns-root-value", ok, fd.loc(), "find(x) is the value of x's root" if ok else "find does not return _find_node(x).value")
 
 
+def _anchor_form(ctx, fc, cfg, read_loop, readv, het_p):
+    """find_components written as: anchor = None; for v in read: (skip unusable) ; if anchor is None: anchor = pos else: merge(anchor, pos).
+    Emits the read-side obligations of R2 and returns the merge call, or None if the function does not have this form."""
+    import itertools
+    from rules.common import tt_eval
+
+    inner = [n for n in ast.walk(read_loop) if isinstance(n, ast.For) and n is not read_loop and u(n.iter) == readv]
+    if len(inner) != 1:
+        return None
+    vl = inner[0]
+    var = u(vl.target)
+    merges = [c for c in ast.walk(vl) if isinstance(c, ast.Call) and u(c.func) == "component_finder.merge" and len(c.args) == 2]
+    if len(merges) != 1 or not isinstance(merges[0].args[0], ast.Name):
+        return None
+    m = merges[0]
+    A = m.args[0].id
+    pos_txt = u(util.resolve_locals(fc.node, m.args[1], scope=vl))
+    inits = [(s_, v) for s_, v in util.assignments_to(fc.node, A)]
+    none_inits = [s_ for s_, v in inits if isinstance(v, ast.Constant) and v.value is None]
+    sets = [s_ for s_, v in inits if isinstance(v, ast.AST) and not (isinstance(v, ast.Constant) and v.value is None)]
+    # per read: initialised to None inside the read loop, before the variant loop
+    ok_init = len(none_inits) == 1 and none_inits[0].parent is read_loop and cfg.dominates(cfg.node_of(none_inits[0]), cfg.node_of(vl))
+    ok_set = len(sets) == 1 and u(util.resolve_locals(fc.node, sets[0].value, scope=vl)) == pos_txt and any(x is sets[0] for x in ast.walk(vl))
+    ga_set = util.resolved_guard_atoms(cfg, fc.node, cfg.node_of(sets[0]), keep=(A,), scope=vl) if ok_set else set()
+    ga_m = util.resolved_guard_atoms(cfg, fc.node, cfg.node_containing(m), keep=(A,), scope=vl)
+    ok_anchor = ok_init and ok_set and ("None is %s" % A, True) in ga_set and ("None is %s" % A, False) in ga_m and pos_txt == "%s.position" % var
+    ctx.ob(fc.qual, "read-positions-come-from-the-read", ok_anchor, fc.loc(m), "per read, the first usable position of the read's own variants becomes the anchor (reset to None for every read)" if ok_anchor else "the anchor `%s` is not the first usable position of the read's own variants, reset for every read" % A)
+    ctx.ob(fc.qual, "all-merged-with-first:anchor", ok_anchor and u(m.args[1]) is not None, fc.loc(m), "every later usable position of the read is merged with the anchor" if ok_anchor else "later positions are not merged with the read's first usable position")
+    # which positions are usable: the conditions common to the anchor assignment and the merge
+    common = {(t, p) for t, p in ga_set & ga_m if not t.startswith("<iter>")}
+    Aa, Bb, Cc = "%s.position in phased_positions_set" % var, "None is %s" % het_p, "%s.position in %s[%s.sample_id]" % (var, het_p, readv)
+    wrong, unknown = None, None
+    for va, vb, vc in itertools.product((False, True), repeat=3):
+        env = {Aa: va, Bb: vb, Cc: vc}
+        try:
+            got = True
+            for t, p in common:
+                e_ = ast.parse(t, mode="eval").body
+                if tt_eval(e_, env) != p:
+                    got = False
+        except (ValueError, SyntaxError) as ex_:
+            unknown = str(ex_)
+            break
+        if got != (va and (vb or vc)) and wrong is None:
+            wrong = "phased=%s, het map absent=%s, het in sample=%s -> used=%s" % (va, vb, vc, got)
+    if unknown:
+        ctx.ob(fc.qual, "read-positions-filter:any", None, fc.loc(vl), "a skip condition of the variant loop is outside {phased position, het map present, het in the read's sample}: %s" % unknown)
+    else:
+        ctx.ob(fc.qual, "read-positions-filter:any", wrong is None, fc.loc(vl), "a position of the read is used exactly if it is phased and (if a het map is given) heterozygous in the read's sample -- checked over all valuations of the three conditions" if wrong is None else "usable-position filter gives %s" % wrong)
+    # nothing else skips a read: the read loop and the variant loop have no early exit
+    exits = util.lexical_loop_exits(read_loop)
+    ctx.ob(fc.qual, "every-read-contributes-its-links", not exits, fc.loc(exits[0]) if exits else fc.loc(read_loop), "the read loop and the variant loop are only left when exhausted" if not exits else "a read (or the rest of its variants) can be skipped by `%s`" % u(exits[0]))
+    return m
+
+
 def r2(ctx):
     fc = ctx.func(PH + ".find_components")
     cfg = ctx.cfg(fc)
@@ -135,7 +194,14 @@ def r2(ctx):
     readv = u(rl[0].target)
     alldefs = [(s, v) for s, v in util.assignments_to(fc.node, "positions") if isinstance(v, ast.AST)]
     comps = [(s, v) for s, v in alldefs if isinstance(v, ast.ListComp)]
-    ctx.require(len(alldefs) >= 1, "no definition of `positions` in find_components")
+    anchor_merge = None
+    if not alldefs:
+        # form B: one pass over the read's variants with an anchor -- the first usable position of the read --
+        # that every later usable position is merged with
+        anchor_merge = _anchor_form(ctx, fc, cfg, rl[0], readv, het_p)
+        if anchor_merge is None:
+            ctx.ob(fc.qual, "read-positions-come-from-the-read", None, fc.loc(rl[0]), "find_components neither collects a read's `positions` nor merges them through a first-usable-position anchor")
+            return
     for s, v in alldefs:
         if not isinstance(v, ast.ListComp):
             ctx.ob(fc.qual, "read-positions-come-from-the-read", False, fc.loc(s), "positions = %s is not a selection of the read's own variant positions: positions the read does not cover would be merged into its component" % u(v)[:80])
@@ -168,6 +234,8 @@ def r2(ctx):
     merges = [c for c in ctx.prog.calls_in(fc.node) if u(c.func) == "component_finder.merge"]
     ctx.require(len(merges) == 2, "expected two merge sites (reads, master block)")
     for c in merges:
+        if c is anchor_merge:
+            continue  # judged by _anchor_form
         lp = c
         while lp is not None and not isinstance(lp, ast.For):
             lp = lp.parent
@@ -181,7 +249,7 @@ def r2(ctx):
         ctx.ob(fc.qual, "all-merged-with-first:%s" % seq, ok, fc.loc(c), "every element of %s after the first is merged with %s[0]" % (seq, seq) if ok else "merge loop does not join all of %s[1:] with %s[0]" % (seq, seq))
     # every read of the read set reaches its merge loop: nothing skips a read
     read_merge = [c for c in merges if "master_block" not in u(c) and mb_p not in u(c)]
-    if read_merge:
+    if read_merge and anchor_merge is None:
         ml = read_merge[0]
         while ml is not None and not isinstance(ml, ast.For):
             ml = ml.parent
@@ -273,12 +341,50 @@ def r4(ctx):
     ok = aps is not None and u(aps) == "set(accessible_positions)"
     ctx.ob(oc.qual, "accessible-set", ok, oc.loc(), "accessible_positions_set = set(accessible_positions)" if ok else "accessible_positions_set changed")
     # hom_in_any_sample only gets homozygous allele pairs of accessible positions
+    # which super-read allele pairs put a position into hom_in_any_sample: a membership test on a literal set of pairs,
+    # or a literal dict that maps allele pairs to the collecting sets
     adds = [c for c in ctx.prog.calls_in(oc.node) if u(c.func) == "hom_in_any_sample.add"]
-    ok = len(adds) == 1
-    if ok:
-        ga = guard_atoms(cfg, cfg.node_containing(adds[0]))
-        ok = ("gt in homozygous_gts", True) in ga and any(t.endswith("in accessible_positions_set") and p for t, p in ga) or (("gt in homozygous_gts", True) in ga and any("accessible_positions_set" in t for t, p in ga))
-    ctx.ob(oc.qual, "rederived-homozygous-set", ok, oc.loc(), "positions enter hom_in_any_sample only if the super-read alleles are equal and the position is accessible" if ok else "hom_in_any_sample is filled under other conditions")
+    keys = key_expr = site = None
+    if len(adds) == 1:
+        site = adds[0]
+        ga = util.resolved_guard_atoms(cfg, oc.node, cfg.node_containing(site), keep=("homozygous_gts", "heterozygous_gts"))
+        for t, p_ in ga:
+            m_ = re.fullmatch(r"(.+) in (\w+)", t)
+            if m_ and p_:
+                d_ = util.single_def(oc.node, m_.group(2))
+                if d_ is not None:
+                    try:
+                        lit = ast.literal_eval(d_.args[0]) if isinstance(d_, ast.Call) and u(d_.func) in ("frozenset", "set") and d_.args else ast.literal_eval(d_)
+                        keys, key_expr = set(lit), m_.group(1)
+                    except Exception:
+                        pass
+    elif not adds:
+        for n_ in walk_function(oc.node):
+            if isinstance(n_, ast.Assign) and isinstance(n_.value, ast.Dict) and any(isinstance(v_, ast.Name) and v_.id == "hom_in_any_sample" for v_ in n_.value.values) and isinstance(n_.targets[0], ast.Name):
+                D = n_.targets[0].id
+                try:
+                    table = {ast.literal_eval(k_): u(v_) for k_, v_ in zip(n_.value.keys, n_.value.values)}
+                except Exception:
+                    continue
+                for c_ in ctx.prog.calls_in(oc.node):
+                    if isinstance(c_.func, ast.Attribute) and c_.func.attr == "add":
+                        recv_ = c_.func.value
+                        td = util.single_def(oc.node, recv_.id) if isinstance(recv_, ast.Name) else recv_
+                        if isinstance(td, ast.Call) and u(td.func) == "%s.get" % D and len(td.args) == 1:
+                            gat = guard_atoms(cfg, cfg.node_containing(c_))
+                            if ("None is %s" % u(recv_), False) in gat:
+                                keys = {k_ for k_, v_ in table.items() if v_ == "hom_in_any_sample"}
+                                key_expr, site = u(util.resolve_locals(oc.node, td.args[0])), c_
+    if keys is None:
+        ctx.ob(oc.qual, "rederived-homozygous-set", None, oc.loc(), "cannot tell for which super-read allele pairs a position enters hom_in_any_sample")
+    else:
+        ga = guard_atoms(cfg, cfg.node_containing(site))
+        acc = any("accessible_positions_set" in t and p_ for t, p_ in ga)
+        ok = keys == {(0, 0), (1, 1)} and key_expr.replace(" ", "") in ("(v1.allele,v2.allele)", "gt") and acc
+        if key_expr == "gt":
+            gd = util.single_def(oc.node, "gt")
+            ok = ok and gd is not None and u(gd).replace(" ", "") == "(v1.allele,v2.allele)"
+        ctx.ob(oc.qual, "rederived-homozygous-set", ok, oc.loc(site), "positions enter hom_in_any_sample only if the two super-read alleles are (0, 0) or (1, 1) and the position is accessible" if ok else "hom_in_any_sample is filled for allele pairs %s of %s (accessible-position guard: %s)" % (sorted(keys), key_expr, acc))
 
 
 def r5(ctx):
